@@ -22,7 +22,7 @@ func init() {
 			"non-trivial = geometry with positive area or length; distinct by WKB",
 		Assumptions:      []string{"tolerance 1e-9*M (1e-9*M^2 for area) as the statement gives", "collections are measured additively over members (overlapping members count twice), as Area/Length are documented"},
 		MinNontrivial:    500,
-		RequiredMonitors: []string{"area", "signed", "length", "centroid", "invariance", "additivity", "translation", "transform"},
+		RequiredMonitors: []string{"area", "signed", "length", "centroid", "invariance", "additivity", "translation", "transform", "concrete-entry"},
 		Run:              runAll,
 	})
 }
@@ -154,6 +154,7 @@ func one(k *run.K) {
 	}
 	tolA, tolL := 1e-9*M*M, 1e-9*M
 	gotA, gotL := g.Area(), g.Length()
+	shared.ConcreteAgree(k, g, "concrete-entry", []shared.Call{{Method: "Area"}, {Method: "Length"}, {Method: "Centroid"}}, nil)
 	k.Obs("area", gotA)
 	k.Obs("exact_area", wantA)
 	k.Check("area", near(gotA, wantA, tolA), "Area()=%.15g, exact %.15g", gotA, wantA)
